@@ -210,6 +210,135 @@ fn run(name: &str, j: &J) -> Result<bool, String> {
             println!("  type of a / b over {}: {}; at a = {}, b = {} the quotient is {}", dt, img, a, b, y);
             Ok(img.contains(&Value::float(y)))
         }
+        // C18: compiling `SELECT <expr> FROM t` (and the same expression in WHERE and GROUP BY) through the SQL front end, the schema,
+        // the rendering and both rewritings returns a relation or an error, never a panic
+        "c18_sql_case" | "c18_sql_search" => {
+            use qrlew::{hierarchy::Hierarchy, expr::Identifier, sql::parse, synthetic_data::SyntheticData};
+            use std::sync::Arc;
+            let t: Relation = Relation::table().name("t").schema(vec![
+                ("id", DataType::integer()), ("x", DataType::integer_interval(-3, 5)), ("n", DataType::integer()), ("p", DataType::integer_interval(1, 100)),
+                ("y", DataType::float_interval(-2.5, 3.5)), ("z", DataType::float()), ("q", DataType::float_interval(0., 10.)), ("b", DataType::boolean()),
+                ("s", DataType::text_values(["a".to_string(), "Bc".to_string(), "12".to_string()])), ("w", DataType::text()), ("d", DataType::date()),
+                ("ox", DataType::optional(DataType::integer_interval(-3, 5))), ("oy", DataType::optional(DataType::float_interval(0., 10.))),
+            ].into_iter().collect::<Schema>()).size(1000).build();
+            let relations: Hierarchy<Arc<Relation>> = vec![t].iter().map(|t| (Identifier::from(t.name()), Arc::new(t.clone()))).collect();
+            let exprs: &[&str] = &[
+                "CAST(x AS BOOLEAN)", "CAST(n AS BOOLEAN)", "CAST(y AS BOOLEAN)", "CAST(s AS BOOLEAN)", "CAST(w AS BOOLEAN)", "CAST(s AS FLOAT)", "CAST(s AS INTEGER)", "CAST(w AS FLOAT)",
+                "CAST(w AS INTEGER)", "CAST(y AS DATE)", "CAST(x AS DATE)", "CAST(s AS DATE)", "CAST(w AS DATE)", "CAST(b AS DATE)", "CAST(y AS TIME)", "CAST(y AS TIMESTAMP)", "CAST(s AS TIMESTAMP)",
+                "CAST(b AS FLOAT)", "CAST(b AS INTEGER)", "CAST(d AS FLOAT)", "CAST(d AS INTEGER)", "CAST(z AS INTEGER)", "CAST(n AS FLOAT)", "CAST(z AS TEXT)", "CAST(x AS JSON)",
+                "tan(y)", "tan(z)", "ln(y)", "log(y)", "ln(x)", "log(n)", "sqrt(y)", "sqrt(z)", "exp(z)", "exp(n)", "pow(y, y)", "pow(z, z)", "pow(x, x)", "pow(n, n)",
+                "y / y", "y / x", "x / x", "n / n", "x % x", "n % n", "y % y", "x / 0", "y / 0", "x % 0", "1 / x", "1 / y", "1 / 0", "0 / 0", "x / 0.0", "n % -1", "n / -1",
+                "z * z", "n * n", "n + n", "n - n", "-n", "abs(n)", "z + z", "z - z", "abs(z)", "sign(z)", "sign(n)", "round(z, 2)", "round(y, x)", "round(y, n)", "trunc(y, x)", "trunc(z, n)",
+                "ceil(z)", "floor(z)", "ceil(n)", "substr(w, x)", "substr(w, n)", "substr(s, x)", "substr(w, x, x)", "substr(w, n, n)", "substring(w from x for x)", "position('a' in w)",
+                "char_length(w)", "lower(w)", "upper(s)", "md5(w)", "concat(w, s, x)", "w || s", "ltrim(w)", "rtrim(s)", "btrim(w)", "trim(w)", "ltrim(w, 'a')", "regexp_contains(w, 'a')",
+                "regexp_extract(w, 'a', 0, 0)", "regexp_replace(w, 'a', 'b')", "coalesce(ox, 0)", "coalesce(ox, oy)", "coalesce(ox, w)", "coalesce(x, w)", "coalesce(oy, ox, 1)",
+                "CASE WHEN b THEN x ELSE y END", "CASE WHEN b THEN x ELSE w END", "CASE WHEN b THEN x END", "CASE WHEN ox > 0 THEN x ELSE y END", "CASE x WHEN 1 THEN 'a' ELSE 'b' END",
+                "x IN (1, 2, 3)", "w IN ('a', 'b')", "y IN (1, 2.5)", "x BETWEEN 0 AND 2", "x IS NULL", "ox IS NULL", "NOT b", "b AND ox > 0", "b OR NULL", "NULL", "NULL + 1", "x + NULL",
+                "greatest(x, y)", "least(x, y, n)", "greatest(w, s)", "greatest(x, w)", "extract(year from d)", "extract(epoch from d)", "extract(hour from d)", "extract(dow from d)",
+                "extract(year from x)", "extract(year from w)", "extract(quarter from d)", "ceil(d to day)", "current_date", "current_timestamp", "random()", "pi()",
+                "x & n", "x | n", "x ^ n", "y & y", "x << 2", "b + 1", "b * y", "w + 1", "w * 2", "-w", "-b", "NOT x", "NOT w", "x AND y", "x > w", "w > s", "w = 1", "b = 1", "d > '2020-01-01'",
+                "d + 1", "d - d", "encode(w, 'hex')", "decode(w, 'hex')", "hex(x)", "is_bool(b)", "nosuchfunction(x, y)", "x::float", "x::text::integer", "sin(z)", "cos(n)", "sin(n)", "sin(x)",
+                "exp(1000 * q)", "exp(exp(q * 100))", "ln(exp(-1000 * q))", "1 / exp(-1000*q)", "9223372036854775807 + x", "-9223372036854775808 - x", "9223372036854775807 * x",
+                "(-9223372036854775807 - 1) / -1", "1e308 * q", "1e308 * 1e308", "1e-320 / q", "pow(10, 400)", "pow(0, -1)", "sqrt(-1)", "ln(0)", "ln(-1)", "log(0)",
+                "exp()", "greatest(x)", "coalesce()", "substr(w)", "regexp_replace(w)", "count()", "pow(x)", "round()", "ltrim()", "log()", "X'AB'",
+            ];
+            let one = |e: &str| -> Option<String> {
+                for q in [format!("SELECT {} AS r FROM t", e), format!("SELECT SUM(q) AS r FROM t WHERE ({}) IS NOT NULL", e), format!("SELECT SUM(q) AS sq FROM t GROUP BY {}", e)] {
+                    let relations2 = relations.clone();
+                    let q2 = q.clone();
+                    let r = std::panic::catch_unwind(std::panic::AssertUnwindSafe(move || -> Result<(), String> {
+                        let query = parse(&q2).map_err(|e| e.to_string())?;
+                        let relation = Relation::try_from(query.with(&relations2)).map_err(|e| e.to_string())?;
+                        let _ = relation.schema().to_string();
+                        let _ = qrlew::ast::Query::from(&relation).to_string();
+                        let pu = PrivacyUnit::from(vec![("t", vec![], "id")]);
+                        let sd = Some(SyntheticData::new(Hierarchy::from([(vec!["t"], Identifier::from("st"))])));
+                        let _ = relation.rewrite_as_privacy_unit_preserving(&relations2, sd.clone(), pu.clone(), DpParameters::from_epsilon_delta(1., 1e-3), None).map(|r| r.relation().schema().to_string());
+                        let _ = relation.rewrite_with_differential_privacy(&relations2, sd, pu, DpParameters::from_epsilon_delta(1., 1e-3)).map(|r| r.relation().schema().to_string());
+                        Ok(())
+                    }));
+                    if r.is_err() { return Some(format!("compiling `{}` panics", q)); }
+                }
+                None
+            };
+            std::panic::set_hook(Box::new(|_| {}));
+            if name == "c18_sql_case" { let r = one(j["expr"].as_str().unwrap()); if let Some(m) = &r { println!("  {}", m); } return Ok(r.is_none()); }
+            for e in exprs { if let Some(m) = one(e) { println!("  {}", m); println!("QX-WITNESS {}", serde_json::json!({"expr": e})); return Ok(false); } }
+            Ok(true)
+        }
+        // C12: a type converted into a union — the converted value must lie in the converted type
+        "c12_into_union" => {
+            use qrlew::data_type::{injection::{From, Injection}, Union};
+            let u = Union::from_data_types(&[DataType::integer_interval(0, 10), DataType::integer_interval(0, 5)]);
+            let set = DataType::integer_interval(0, 5);
+            let inj = From(set.clone()).into(u.clone()).map_err(|e| e.to_string())?;
+            let img = inj.super_image(&set).map_err(|e| e.to_string())?;
+            let v = Value::integer(i(j, "v"));
+            let val = inj.value(&v).map_err(|e| e.to_string())?;
+            println!("  {} into {}: image {}, {} converts to {}", set, u, img, v, val);
+            Ok(DataType::from(img).contains(&Value::from(val)))
+        }
+        // C11 (cross-variant): A ⊆ B and v ∈ A must give v ∈ B, and A ∪ B must contain v
+        "c11_cross_variant" => {
+            let ty = |s: &str| -> DataType { match s { "float" => DataType::float(), "option(float)" => DataType::optional(DataType::float()), "bool{true}" => DataType::boolean_value(true), "int{7}" => DataType::integer_value(7), "str" => DataType::text(), other => panic!("type {}", other) } };
+            let (a, b) = (ty(j["a"].as_str().unwrap()), ty(j["b"].as_str().unwrap()));
+            let v = match j["v"].as_str().unwrap() { "0.5" => Value::float(0.5), "true" => Value::boolean(true), other => panic!("value {}", other) };
+            let u = a.super_union(&b).map_err(|e| e.to_string())?;
+            println!("  A = {}, B = {}, v = {}: A ⊆ B {}, v ∈ A {}, v ∈ B {}; A ∪ B = {}, v ∈ A ∪ B {}", a, b, v, a.is_subset_of(&b), a.contains(&v), b.contains(&v), u, u.contains(&v));
+            Ok(!(a.is_subset_of(&b) && a.contains(&v) && !b.contains(&v)) && !((a.contains(&v) || b.contains(&v)) && !u.contains(&v)))
+        }
+        // C06 / C18: binary arithmetic through Expr::super_image / Expr::value on small boxes: range propagation must not panic and the
+        // range must contain the value at every sampled point of the box (all representations of the value accepted)
+        "c06_arith_case" | "c06_arith_search" => {
+            let mk = |op: &str| -> Expr { match op { "plus" => Expr::plus(Expr::col("a"), Expr::col("b")), "minus" => Expr::minus(Expr::col("a"), Expr::col("b")), "multiply" => Expr::multiply(Expr::col("a"), Expr::col("b")),
+                "divide" => Expr::divide(Expr::col("a"), Expr::col("b")), "modulo" => Expr::modulo(Expr::col("a"), Expr::col("b")), other => panic!("op {}", other) } };
+            let reprs = |y: &Value| -> Vec<Value> {
+                let inner: Value = match y { Value::Optional(o) => match o.as_ref() { Some(x) => x.as_ref().clone(), None => return vec![y.clone()] }, _ => y.clone() };
+                let mut out = vec![y.clone(), inner.clone()];
+                match &inner { Value::Float(x) => { let x: f64 = **x; if x.fract() == 0.0 && x.abs() < 9e18 { out.push(Value::integer(x as i64)); } } Value::Integer(i) => out.push(Value::float(**i as f64)), _ => {} }
+                let n = out.len(); for k in 0..n { out.push(Value::some(out[k].clone())); }
+                out
+            };
+            // one case: op, float?, box [a_lo,a_hi] x [b_lo,b_hi], point (a, b)
+            let one = |op: &str, fl: bool, bx: [f64; 4], pt: [f64; 2]| -> Option<String> {
+                let (ta, tb) = if fl { (DataType::float_interval(bx[0], bx[1]), DataType::float_interval(bx[2], bx[3])) } else { (DataType::integer_interval(bx[0] as i64, bx[1] as i64), DataType::integer_interval(bx[2] as i64, bx[3] as i64)) };
+                let dt = DataType::structured([("a", ta), ("b", tb)]);
+                let e = mk(op);
+                let img = match std::panic::catch_unwind(std::panic::AssertUnwindSafe(|| e.super_image(&dt))) { Err(_) => return Some(format!("range propagation of {} over {} panics", e, dt)), Ok(Err(_)) => return None, Ok(Ok(t)) => t };
+                let (va, vb) = if fl { (Value::float(pt[0]), Value::float(pt[1])) } else { (Value::integer(pt[0] as i64), Value::integer(pt[1] as i64)) };
+                let arg = Value::structured([("a", va), ("b", vb)]);
+                let y = match std::panic::catch_unwind(std::panic::AssertUnwindSafe(|| e.value(&arg))) { Ok(Ok(y)) => y, _ => return None };
+                if let Value::Float(x) = &y { if !x.is_finite() { return None; } }
+                if reprs(&y).iter().any(|r| img.contains(r)) { None } else { Some(format!("{} over {} has the range {} but its value at {} is {}", e, dt, img, arg, y)) }
+            };
+            std::panic::set_hook(Box::new(|_| {}));
+            if name == "c06_arith_case" {
+                let b: Vec<f64> = j["box"].as_array().unwrap().iter().map(|x| x.as_f64().unwrap()).collect();
+                let p: Vec<f64> = j["point"].as_array().unwrap().iter().map(|x| x.as_f64().unwrap()).collect();
+                let r = one(j["op"].as_str().unwrap(), j["float"].as_bool().unwrap(), [b[0], b[1], b[2], b[3]], [p[0], p[1]]);
+                if let Some(m) = &r { println!("  {}", m); }
+                return Ok(r.is_none());
+            }
+            let bounds = [-3.0, -1.0, 0.0, 2.0, 5.0];
+            for op in ["plus", "minus", "multiply", "divide", "modulo"] { for fl in [false, true] {
+                if op == "modulo" && fl { continue; }
+                for (i0, a_lo) in bounds.iter().enumerate() { for a_hi in &bounds[i0..] { for (i1, b_lo) in bounds.iter().enumerate() { for b_hi in &bounds[i1..] {
+                    // two float sets that are both single integral values are converted to integers by the polymorphic dispatch
+                    // (listed finding C06:divide.integral_float_values_are_divided_as_integers): not searched again
+                    if fl && op == "divide" && a_lo == a_hi && b_lo == b_hi { continue; }
+                    let pts_a: Vec<f64> = if fl { vec![*a_lo, (a_lo + a_hi) / 2., *a_hi, a_lo + (a_hi - a_lo) * 0.001] } else { vec![*a_lo, ((a_lo + a_hi) / 2.).floor(), *a_hi] };
+                    let pts_b: Vec<f64> = if fl { vec![*b_lo, (b_lo + b_hi) / 2., *b_hi, b_lo + (b_hi - b_lo) * 0.001, b_hi - (b_hi - b_lo) * 0.001] } else { vec![*b_lo, ((b_lo + b_hi) / 2.).floor(), *b_hi, (b_lo + 1.).min(*b_hi), (b_hi - 1.).max(*b_lo)] };
+                    for pa in &pts_a { for pb in &pts_b {
+                        if let Some(m) = one(op, fl, [*a_lo, *a_hi, *b_lo, *b_hi], [*pa, *pb]) {
+                            println!("  {}", m);
+                            println!("QX-WITNESS {}", serde_json::json!({"op": op, "float": fl, "box": [a_lo, a_hi, b_lo, b_hi], "point": [pa, pb]}));
+                            return Ok(false);
+                        }
+                    } }
+                } } } }
+            } }
+            Ok(true)
+        }
         // C11: interval-set operations on the real Intervals<i64> versus plain point sets over 0..=9
         "c11_intervals_case" | "c11_intervals_search" => {
             use qrlew::data_type::intervals::Intervals;
